@@ -387,7 +387,11 @@ fn run_worker(
                 }
                 if let Some(d) = &r.desc {
                     if s.samples.len() < MAX_SAMPLES {
-                        s.samples.push(d.clone());
+                        let mut d = d.clone();
+                        if let Some(o) = d.as_object_mut() {
+                            o.remove("concrete");
+                        }
+                        s.samples.push(d);
                     }
                 }
             }
@@ -495,12 +499,12 @@ pub struct ReplayFile {
 }
 
 pub fn run_replay(suite: &Suite, rf: &ReplayFile) -> Result<CaseResult, String> {
+    // the concrete form is preferred: it does not depend on the generator's decoding of a tape
+    if let (Some(d), Some(f)) = (&rf.direct, suite.direct) {
+        return guarded(|| f(d)).map_err(|e| format!("harness panic: {e}"))?;
+    }
     if let Some(t) = &rf.tape {
         return guarded(|| (suite.run)(t, true)).map_err(|e| format!("harness panic: {e}"));
-    }
-    if let Some(d) = &rf.direct {
-        let f = suite.direct.ok_or_else(|| format!("suite {} has no direct entry", suite.name))?;
-        return guarded(|| f(d)).map_err(|e| format!("harness panic: {e}"))?;
     }
     Err("replay file has neither tape nor direct".into())
 }
@@ -514,9 +518,15 @@ pub fn write_found(prop: &str, f: &Failure) -> std::path::PathBuf {
         property: prop.to_string(),
         suite: f.suite.to_string(),
         tape: Some(f.tape.clone()),
-        direct: None,
+        direct: f.desc.as_ref().and_then(|d| d.get("concrete").cloned()),
         message: Some(f.message.clone()),
-        case: f.desc.clone(),
+        case: f.desc.as_ref().map(|d| {
+            let mut d = d.clone();
+            if let Some(o) = d.as_object_mut() {
+                o.remove("concrete");
+            }
+            d
+        }),
         note: Some(format!("shrunk by proptest (worker {})", f.worker)),
         expect: None,
     };
